@@ -318,6 +318,8 @@ H("endpoint_stateless_reset_native", ["C03", "C07"], "replay-only", "endpoint::s
   [("inciting_len", "u16")], 4, [], ["Endpoint::stateless_reset"], "native replay body of E2 query e2_stateless_reset")
 H("endpoint_add_connection_cids_native", ["C09", "C08"], "replay-only", "endpoint::add_connection_cids_native",
   [("pref", "bool")], 4, [], ["Endpoint::add_connection", "Endpoint::send_new_identifiers", "ConnectionIndex::remove"], "native replay body of E2 slice query e2_endpoint_add_connection_cids_slice")
+H("endpoint_connect_failure_native", ["C09"], "replay-only", "endpoint::connect_failure_native",
+  [("x", "u8")], 4, [], ["Endpoint::connect", "Endpoint::new_cid"], "native replay body of E2 query e2_endpoint_connect_cid_leak; demonstration for finding 16")
 H("endpoint_retire_and_drained_native", ["C09", "C08"], "replay-only", "endpoint::retire_and_drained_native",
   [("allow_more", "bool")], 4, [], ["Endpoint::handle_event", "Endpoint::send_new_identifiers", "ConnectionIndex::retire", "ConnectionIndex::remove"], "native replay body of E2 query e2_endpoint_retire_and_drained_events")
 H("token_bloom_replay_native", ["C14"], "replay-only", "token::bloom_replay_native",
